@@ -52,6 +52,7 @@ def run(ctx):
   T['_DEGREE_MODIFICATIONS'] = mods
   from sa import pitfalls
   regex_groups_into_tables(ctx)
+  pitch_class_wraps_both_ways(ctx)
   pitfalls.apply(ctx, 'PITFALL', [fi for q, fi in sorted(mi.all_functions.items()) if '.' not in q], ['falsy-zero', 'misaligned-index', 'previous-wraps'], {
       'previous-wraps': 'the amount left over for the accidental is then reduced by a whole octave\'s worth of steps: the root / bass is spelled on the wrong letter (Db comes out as C)',
       'misaligned-index': 'the root written into the chord symbol is then not the root the chosen kind was found for: the named chord does not contain the supplied pitches',
@@ -712,6 +713,19 @@ def escapes(ctx, mi, T):
                pname_, sh_[0][0], sh_[0][1], sh_[0][1], sh_[0][1], sh_[0][0]) if sh_ else '', construct='%s: longest alternative first' % pname_, definite=True)
   ok = set(T['_DEGREE_OFFSETS']) == set(range(1, 8))
   ctx.ob('KEYERR/degree-offsets', mi, mi.assigns['_DEGREE_OFFSETS'][0], ok, 'normalised degrees 1..7 are exactly the keys of _DEGREE_OFFSETS' if ok else '_DEGREE_OFFSETS keys are %s' % sorted(T['_DEGREE_OFFSETS']), construct='_DEGREE_OFFSETS keys = 1..7')
+
+
+def pitch_class_wraps_both_ways(ctx, rule='PITCHCLASS/wrap-both-ways'):
+  """Anywhere in chord_symbols_lib (module-level tables included): a pitch class brought back into the octave by hand
+  (`p + 12 if p < 0 else p`) is wrapped on one side only - the other side (B# = 12, B## = 13) is stored or returned as it is."""
+  from sa import pitfalls
+  mi = ctx.P.module('chord_symbols_lib')
+  hits = pitfalls.one_sided_wraps(mi.tree)
+  if not hits:
+    ctx.ob(rule, mi, mi.tree, True, 'no one-sided octave wrap in chord_symbols_lib', construct='pitch classes are wrapped on both sides')
+  for v, side in hits:
+    ctx.ob(rule, mi, v, False, '`%s` wraps a pitch class only %s: a spelling on the other side of the octave (%s) keeps a value outside 0..11, so root / bass do not move by k modulo 12' % (
+        norm_text(v)[:70], side, 'B# -> 12, B## -> 13' if side == 'below 0' else 'Cb -> -1'), construct='pitch classes are wrapped on both sides', definite=True)
 
 
 def regex_groups_into_tables(ctx, rule='KEYERR/regex-group-into-table'):
